@@ -138,6 +138,48 @@ def run(rep, model, tier, seed, broken=()):
             if nbad <= 3:
                 rep.violation(dict(kind="determinism: " + prob["what"], diff=prob, argv=tr.argv,
                                    case=treeh.case_json(base), tree=ct.describe(base)))
+    # a file among others vs the same file alone at the same relative path: what is written for one
+    # file must not depend on which other files were documented before it in the run (caches,
+    # shared mutable lists, class attributes).  Files share signatures on purpose, parameter strip
+    # regexes and the kwargs trigger are configured, the first file uses cmake_parse_arguments.
+    nalone = 8 if tier == "quick" else 150
+    for i in range(nalone):
+        sig = rng.choice(["a_in b_in", "x", "first_arg second_arg third_arg", "p_1 p_2"])
+        kind = rng.choice(["function", "macro"])
+        def body(j, cpa):
+            doc = "#[[[\n# Doc %d.%s\n#]]\n" % (j, "\n#\n# :keyword k: v" if rng.random() < 0.2 else "")
+            inner = "  cmake_parse_arguments(ARG \"\" \"\" \"\" ${ARGN})\n" if cpa else "  set(y 1)\n"
+            return ("%s%s(shared_%d %s)\n%send%s()\n" % (doc if rng.random() < 0.7 else "", kind, j, sig, inner, kind)).encode()
+        names = ["alpha.cmake", "beta.cmake", "gamma.cmake"]
+        files = [dict(name=n, kind="f", content=body(j, j == 0 or rng.random() < 0.3)) for j, n in enumerate(names)]
+        sub = dict(name="tools", kind="d", children=[dict(name="delta.cmake", kind="f", content=body(3, False))])
+        tree = files + [sub]
+        settings = {"function_parameter_name_strip_regex": rng.choice(["_in$", "^p_", "", "_arg$"]),
+                    "macro_parameter_name_strip_regex": rng.choice(["_in$", "", "^p_"]),
+                    "kwargs_doc_trigger_string": ":keyword"}
+        case = dict(tree=tree, out="abs", recursive=True, auto_exclude=False, cwd="parent", spelling="abs",
+                    location="work", prefix_cli="pfx", **settings)
+        tfull, ifull = run_variant(case)
+        rep.count_case(json.dumps(["alone", sig, kind, settings, i], sort_keys=True), True)
+        for rel in (("beta.cmake",), ("gamma.cmake",), ("tools", "delta.cmake")):
+            def restrict(children, path):
+                out = []
+                for c in children:
+                    if c["name"] == path[0]:
+                        out.append(c if len(path) == 1 else dict(c, children=restrict(c["children"], path[1:])))
+                return out
+            talone, ialone = run_variant(dict(case, tree=restrict(tree, rel)))
+            nvar += 1
+            rep.dist("det:variant file alone vs among files with the same signatures")
+            page = "/".join(rel)[:-len(".cmake")] + ".rst"
+            if ifull["status"] != 0 or ialone["status"] != 0 or ifull["outfiles"].get(page) != ialone["outfiles"].get(page):
+                nbad += 1
+                if nbad <= 3:
+                    rep.violation(dict(kind="determinism: the page of a file depends on the other files documented in the same run",
+                                       diff=dict(page=page, among_others=(ifull["outfiles"].get(page) or b"").decode("utf-8", "replace")[:500],
+                                                 alone=(ialone["outfiles"].get(page) or b"").decode("utf-8", "replace")[:500]),
+                                       argv=tfull.argv, case=treeh.case_json(case), tree=ct.describe(case)))
+                break
     # files of one directory that map to the SAME page (extension matched case-insensitively:
     # helpers.cmake / helpers.CMAKE).  Which one wins is fixed by the sorted processing order, so
     # the generated files must still not depend on the listing order (implementation-only check;
